@@ -7,6 +7,14 @@ import Mps.SrcPins.SrcCmpSign
 namespace Mps.Src.SrcCmpSign
 set_option maxRecDepth 65536
 
+theorem gen_f_round1 : MpsGen.SrcCmpSign.f_round1 = Mps.SrcPins.SrcCmpSign.f_round1 := by decide
+theorem gen_f_round2 : MpsGen.SrcCmpSign.f_round2 = Mps.SrcPins.SrcCmpSign.f_round2 := by decide
+theorem gen_f_round3 : MpsGen.SrcCmpSign.f_round3 = Mps.SrcPins.SrcCmpSign.f_round3 := by decide
+theorem gen_f_round4 : MpsGen.SrcCmpSign.f_round4 = Mps.SrcPins.SrcCmpSign.f_round4 := by decide
+theorem gen_f_round5 : MpsGen.SrcCmpSign.f_round5 = Mps.SrcPins.SrcCmpSign.f_round5 := by decide
+theorem gen_f_sign : MpsGen.SrcCmpSign.f_sign = Mps.SrcPins.SrcCmpSign.f_sign := by decide
+theorem gen_files : MpsGen.SrcCmpSign.files = Mps.SrcPins.SrcCmpSign.files := by decide
+
 theorem gen_source :
     MpsGen.SrcCmpSign.f_round1 = Mps.SrcPins.SrcCmpSign.f_round1 ∧
     MpsGen.SrcCmpSign.f_round2 = Mps.SrcPins.SrcCmpSign.f_round2 ∧
@@ -14,7 +22,7 @@ theorem gen_source :
     MpsGen.SrcCmpSign.f_round4 = Mps.SrcPins.SrcCmpSign.f_round4 ∧
     MpsGen.SrcCmpSign.f_round5 = Mps.SrcPins.SrcCmpSign.f_round5 ∧
     MpsGen.SrcCmpSign.f_sign = Mps.SrcPins.SrcCmpSign.f_sign ∧
-    MpsGen.SrcCmpSign.files = Mps.SrcPins.SrcCmpSign.files := by
-  refine ⟨by decide, by decide, by decide, by decide, by decide, by decide, by decide⟩
+    MpsGen.SrcCmpSign.files = Mps.SrcPins.SrcCmpSign.files :=
+  ⟨gen_f_round1, gen_f_round2, gen_f_round3, gen_f_round4, gen_f_round5, gen_f_sign, gen_files⟩
 
 end Mps.Src.SrcCmpSign
